@@ -57,6 +57,10 @@ def run(chk):
         chk.violation({"kind": "eval", "expr": evalgen.render(e), "doc": d, "impl": impl[i].decode("utf-8", "replace"),
                        "model": mo.decode("utf-8", "replace") if isinstance(mo, bytes) else repr(mo)}, True,
                       "implementation and reference semantics (Model/Eval.v) disagree on %s" % evalgen.render(e))
+    # recorded finding: `,` drops the RHS results when both operands return the context's own list
+    w = vlib.yqh_batch([{"op": "eval", "expr": ". , .", "input": "2", "in": "json", "out": "json", "indent": 0}])[0]
+    if evalgen.canon_impl(w) == b"OK\nI1:2\n":
+        chk.known_finding("union-same-list", "`. , .` on 2 prints 2 once")
     if broken and not chk.violations:
         chk.violation({"kind": "obligation", "broken": broken}, False, "; ".join(broken)[:600])
     return chk.finish(
